@@ -10,7 +10,7 @@ git -C /repo worktree remove --force $WT 2>/dev/null
 git -C /repo worktree add -q $WT HEAD || exit 2
 cd $WT || exit 2
 git apply $SRC/patch.diff || { echo "PATCH DOES NOT APPLY"; exit 2; }
-CP=$(grep -E '^cp ' $SRC/run.txt | sed "s#/tmp/seedout/$ID/$M#$SRC#g")
+CP=$(grep -E '^#? *cp /tmp/seedout' $SRC/run.txt | sed -E 's/^#? *//; s/ +\(.*$//' | sed "s#/tmp/seedout/$ID/$M#$SRC#g")
 GT=$(grep -E '^go test ' $SRC/run.txt | head -1)
 [ -z "$GT" ] && { echo "no go test line in run.txt"; exit 2; }
 eval "$CP"
